@@ -28,6 +28,7 @@ set_option maxHeartbeats 1000000 in
 theorem prim_life (a b : State) (p : Prim a b) : Life a b := by
   cases p
   case cleanup => exact .closed rfl rfl rfl
+  case sockFaultClose => exact .closed rfl rfl rfl
   case startBegin g1 g2 => exact .startBegin g1 g2 rfl rfl rfl
   case startToSocket g => exact .toSocket g rfl rfl rfl
   case startFail e g1 g2 _ _ _ => exact .startFail g1 g2 e rfl rfl rfl
